@@ -80,3 +80,35 @@ func TestWitnessErrorPathLeavesCallerBindings(t *testing.T) {
 		t.Fatalf("caller's bindings were modified: %v", st2.Bs)
 	}
 }
+
+// Witness for core.(*Spec).Compile#nil-deref:n.Branches.Branches[...] (C07):
+// a JSON document with a null branch must yield an error, not a crash.
+func TestWitnessCompileNilBranch(t *testing.T) {
+	s := &Spec{Nodes: map[string]*Node{"start": {Branches: &Branches{Branches: []*Branch{nil}}}}}
+	defer func() {
+		if r := recover(); r != nil {
+			t.Fatalf("Compile crashed: %v", r)
+		}
+	}()
+	if err := s.Compile(context.Background(), nil, true); err == nil {
+		// a nil branch is either rejected or tolerated, but never a crash
+		if _, err := s.Walk(context.Background(), &State{NodeName: "start", Bs: match.NewBindings()}, nil, nil, nil); err != nil {
+			t.Fatal(err)
+		}
+	}
+}
+
+// Known finding (C13): under patternSyntax "json" Compile parses every
+// pattern twice (ParsePatterns, then again in its own loop), so a pattern
+// whose JSON text denotes a bare string does not compile.
+func TestWitnessJSONPatternParsedTwice(t *testing.T) {
+	s := &Spec{
+		PatternSyntax: "json",
+		Nodes: map[string]*Node{
+			"start": {Branches: &Branches{Type: "message", Branches: []*Branch{{Pattern: `"abc"`, Target: "start"}}}},
+		},
+	}
+	if err := s.Compile(context.Background(), nil, true); err != nil {
+		t.Fatalf("a bare-string pattern given as JSON text does not compile: %v", err)
+	}
+}
